@@ -25,8 +25,12 @@ EXPLANATION = (
 )
 ASSUMPTIONS = ["postcard never panics on malformed input (trusted)", "tokio_util::codec calls decode with the accumulated buffer"]
 
+
 DEC = "<net::codec::SyncCodec as tokio_util::codec::Decoder>::decode"
 ENC = "<net::codec::SyncCodec as tokio_util::codec::Encoder<net::codec::Message>>::encode"
+
+
+EXPLANATION += ' (R3, round 8) a length guard does not discharge a `str` sliced at a byte offset (only a character-boundary / ASCII test does).'
 
 
 def _truth(k, v):
